@@ -52,6 +52,7 @@ CONSTANTS Workers,      \* set of worker ids, 1..N
           Parts,        \* number of requests a load-state scatters to every worker
           MaxDup,       \* environment budget: terminal answers beyond the first one per request id (duplicates)
           MaxProc,      \* environment budget: processing notices sent by workers
+          MaxQueue,     \* bound on the answers a worker has written that the hub has not read yet
           Deviations
 
 VARIABLES master,   \* "running" | "workersStopping" | "stopping" (run() returned)
@@ -166,7 +167,7 @@ Slow(r) == tasks[r].st # "live" \/ tasks[r].age >= T
 Worker_Answer(w, id, st) ==
   /\ wopen[w] /\ id.w = w /\ id \in wreq[w]
   /\ st \in {"ok", "failure", "processing"}
-  /\ Len(toHub[w]) < 2                                   \* bound on unread answers per worker
+  /\ Len(toHub[w]) < MaxQueue
   /\ st = "processing" => budget.proc > 0
   /\ (st # "processing" /\ firstAns[id] # "none") => budget.dup > 0
   /\ budget' = CASE st = "processing" -> [budget EXCEPT !.proc = @ - 1]
@@ -240,7 +241,8 @@ OnFinish(t, timedOut) ==
        [] t.kind = "query" -> IF "QueryAlwaysOk" \in Deviations THEN <<"ok">>
                               ELSE IF failed THEN <<"failure">> ELSE <<"ok">>
        [] t.kind \in StopVerbs ->
-            IF tout /\ t.kind = "stopHard" /\ "StopDoubleAnswer" \in Deviations THEN <<"failure", "ok">>
+            IF tout /\ t.kind = "stopHard"              \* the one failure StopTask::on_finish knows
+            THEN IF "StopDoubleAnswer" \in Deviations THEN <<"failure", "ok">> ELSE <<"failure">>
             ELSE IF "StopAlwaysOk" \in Deviations THEN <<"ok">>
             ELSE IF failed THEN <<"failure">> ELSE <<"ok">>
 
